@@ -178,11 +178,7 @@ func Hex(ks *tinkpb.Keyset) string {
 	if p := hlib.Recover(func() { b, err = proto.Marshal(ks) }); p != "" || err != nil {
 		return fmt.Sprintf("<unmarshallable: %v %s>", err, p)
 	}
-	s := hex.EncodeToString(b)
-	if len(s) > 6000 {
-		s = s[:6000] + "…(" + fmt.Sprint(len(b)) + " bytes)"
-	}
-	return s
+	return hex.EncodeToString(b)
 }
 
 // Clone returns a deep copy (nil-safe).
